@@ -239,7 +239,7 @@ impl Compactor {
                 let tables = self.storage.tables.read().clone();
                 let pin_version = self.storage.version.pin();
                 #[cfg(feature = "verif")]
-                crate::verif::point("compactor.after_pin", &[pin_version.epoch]).await;
+                crate::verif::point("compactor.pass_begin", &[]).await;
                 for (_, table) in tables {
                     #[cfg(feature = "verif")]
                     crate::verif::point("compactor.before_lock", &[table.table_id() as u64]).await;
@@ -253,7 +253,7 @@ impl Compactor {
                     }
                 }
                 #[cfg(feature = "verif")]
-                crate::verif::event("compactor.pass_end", &[pin_version.epoch]);
+                crate::verif::event("compactor.pass_end", &[]);
                 match self.stop.try_recv() {
                     Ok(_) => break,
                     Err(tokio::sync::oneshot::error::TryRecvError::Closed) => break,
